@@ -175,6 +175,32 @@ def oracle(case: dict):
             if after != before:
                 return ("read-writes", f"reading {target.relative_to(root)} changed the tree: {diff(before, after)}")
             return None
+        if op == "parse-link":
+            # the source handed to parse() is a symbolic link to a dict file (in another folder, or next to versioned files):
+            # the target is derived from the name and the folder of the source AS GIVEN, and only it is touched
+            natives = [q for q, k in files if k == "native"]
+            if not natives:
+                return None
+            dest = natives[case["file"] % len(natives)]
+            link = root / case["linkdir"] / case["linkname"]
+            link.parent.mkdir(parents=True, exist_ok=True)
+            if link.exists() or link.is_symlink():
+                return None
+            os.symlink(os.path.relpath(dest, link.parent), link)
+            before = snap(root)
+            try:
+                dictIO.DictParser.parse(link, mode=case["mode"], output=case["output"])
+            except Exception as e:  # noqa: BLE001
+                after = snap(root)
+                return None if after == before else ("clobber", f"parse of a link raised {type(e).__name__} and changed {diff(before, after)}")
+            after = snap(root)
+            created, deleted, changed = diff(before, after)
+            exp = link.parent / spec_target_name(link.name, "parsed", [], case["output"])
+            rel = str(exp.relative_to(root))
+            touched = sorted(set(created) | set(changed))
+            if deleted or touched != [rel]:
+                return ("parse-touches-others", f"parse({link.relative_to(root)} -> {dest.relative_to(root)}, output={case['output']!r}) touched {touched}, deleted {deleted}; expected exactly {rel}")
+            return None
         if op == "dump-rel":
             # a dict that lives elsewhere (loaded from a file in another folder, or built before a change of directory) is
             # dumped to a RELATIVE target: the requested target is <working directory>/<name>, and nothing else is touched
@@ -500,6 +526,8 @@ def run(ctx):
         for opts in ({}, {"includes": False}, {"order": True, "comments": False}, {"scope": ["nope"]}):
             cases.append({"op": "read", "seed": seed, "file": rng.randrange(8), "opts": opts})
         cases.append({"op": "load", "seed": seed, "file": rng.randrange(8)})
+        cases.append({"op": "parse-link", "seed": seed, "file": rng.randrange(8), "linkdir": rng.choice(["links", "d1", "."]), "linkname": rng.choice(["cfg", "setup_current", "l.dict"]),
+                      "mode": rng.choice(["w", "a"]), "output": rng.choice([None, None, "json", "foam"])})
         cases.append({"op": "dump-rel", "seed": seed, "file": rng.randrange(8), "how": rng.choice(["loaded", "built"]), "cwd": rng.choice([".", "d1/d2", "x1"]),
                       "name": rng.choice(["relout", "out/copy.json", "k.dict", "file0"])})
         for fmt, where, mode in itertools.product(["native", "foam", "json", "xml"], ["existing", "new", "deep"], ["a", "w"]):
